@@ -175,15 +175,17 @@ PLAN["C08"]["proofs"] = [dict(module="CursorIdx.tla", what="for every container 
 # ---- texts for MANIFEST.json -----------------------------------------------------------------------
 _MC = ("TLC explores the bounded TLA+ models of the property's state machine exhaustively, and every (reachable concrete "
        "state, call, argument tuple) edge of the REAL code's own state graph in the same bounded universe is executed, logged and "
-       "validated by TLC against the trace specification (plus seeded long histories beyond the bound). Exhaustive within the "
-       "bound, sampled beyond it; by data independence a history over N distinct keys stands for all order-isomorphic ones.")
+       "validated by TLC against the trace specification; beyond the bound, scripted histories at scale (containers of thousands "
+       "of elements, argument lists of hundreds, thousands of calls on one instance) and seeded random histories are validated the "
+       "same way. Exhaustive within the bound, sampled beyond it; by data independence a history over N distinct keys stands for all order-isomorphic ones.")
 _NOTE = ("Trusted: TLC and the CommunityModules JSON reader; the Go harness (it executes what it logs; reflection is read-only); "
          "bounded universes as stated in the evidence file.")
 _TECH = "explicit TLA+ spec; TLC model checking + TLC trace validation of events recorded from the real code (exhaustive bounded tour + random histories)"
 for _k, _p in PLAN.items():
     _p.setdefault("claim", _MC if _p["level"] == "model_checking" else
                   "Exploration: every exported operation is executed in every reachable state of the bounded universes with every "
-                  "argument class, and in seeded hostile random histories; TLC validates each recorded call against the obligation. "
+                  "argument class, in scripted histories at scale, in seeded hostile random histories, and (found by reflection) on "
+                  "containers of pointer / interface / NaN / channel element types; TLC validates each recorded call against the obligation. "
                   "Unbounded argument values and schedules are sampled, not enumerated.")
     _p.setdefault("note", _NOTE + (" " + "; ".join(_p.get("trusted", [])) if _p.get("trusted") else ""))
     _p.setdefault("technique", _TECH)
